@@ -25,7 +25,7 @@ Proof. exact run_d_none. Qed.
 Print Assumptions C03_no_delay_history_is_the_controller_model.
 
 (* For every configuration, state (so: after any history, with or without late answers), operation
-   and late answer: an attestation / proposal / early-proposal job that exists after the operation
+   and late answer: an attestation / proposal / early-proposal / sync committee preparation job that exists after the operation
    and was not there when everything that does not wait for the answer had been done -- a job set
    up when the answer arrived -- is for a slot not earlier than the current slot of that moment. *)
 Theorem C03_slow_answer_no_past_job : forall shadowed c d st o n s,
@@ -64,21 +64,47 @@ Proof.
 Qed.
 Print Assumptions C03_late_call_schedules_due_slots.
 
-(* Sync committee preparation jobs.  scheduleSyncCommitteeMessages fixes the window's lower bound
-   BEFORE its SyncCommitteeDuties request (clock [cur0]) and tests "current slot when told not to"
-   after it (clock [cur1]): a job set up when the answer arrives lies in the window of [cur0] and is
-   not the slot current at [cur1] when told so ... *)
+(* Sync committee preparation jobs ([duty_slot] covers them: the four theorems above hold for
+   "Prepare sync committee messages for slot s" as well).  scheduleSyncCommitteeMessages computes
+   the window BEFORE its SyncCommitteeDuties request (clock [cur0]); once the duties and the
+   accounts have been obtained (clock [cur1]) it clamps the first slot to the current slot again
+   and skips the current slot when told so.  A job set up when the answer arrives lies in the
+   window of [cur0], is not earlier than [cur1], and is not [cur1] itself when told so.
+   (Before the repair "fix: sync committee preparation jobs are not set up for slots that passed
+   while the duties request was outstanding" the second clamp was missing and the faithful model
+   refuted the statement: C03_slow_sync_answer_passed_slot_refuted in the history of this file;
+   corpus/C03/slow-sync-answer-passed-slot.json is the witness run on the real controller.) *)
 Theorem C03_slow_sync_answer_window : forall c ae cur0 cur1 e ep nc t s,
   texists (sched_sync2 c ae cur0 cur1 e ep nc t) (JSync s) = true -> texists t (JSync s) = false ->
   let '(_, fs, ls) := sync_window c ae cur0 ep in
-  fs <= s <= ls /\ ((s =? cur1) && nc = false).
+  fs <= s <= ls /\ cur1 <= s /\ ((s =? cur1) && nc = false).
 Proof. exact sched_sync2_new. Qed.
 Print Assumptions C03_slow_sync_answer_window.
 
-(* ... and NOT more: the faithful model sets up preparation jobs for slots that passed while the
-   request was outstanding (the statement "no job for a passed slot" is refuted for this kind of
-   job; the real controller reproduces the witness, corpus/C03/slow-sync-answer-passed-slot.json;
-   see notes/C03.md). *)
+(* the positive statement that replaces the refutation, on the witness's own terms: for every
+   state, operation and late answer, a sync committee preparation job set up when the answer
+   arrives is for a slot not earlier than the clock of that moment, strictly later in a restart *)
+Theorem C03_slow_sync_answer_no_passed_slot : forall shadowed c d st o s,
+  texists (st_jobs (fst (step_imm shadowed c d st o))) (JSync s) = false ->
+  texists (st_jobs (step_d shadowed c d st o)) (JSync s) = true ->
+  st_cur (step_d shadowed c d st o) <= s /\
+  (o = Start -> st_cur (step_d shadowed c d st o) < s).
+Proof.
+  intros shadowed c d st o s H0 H1. split.
+  - exact (slow_answer_no_past_job shadowed c d st o (JSync s) s eq_refl H1 H0).
+  - intro E. subst o. exact (slow_answer_restart_strictly_later shadowed c d st (JSync s) s eq_refl H1 H0).
+Qed.
+Print Assumptions C03_slow_sync_answer_no_passed_slot.
+
+(* with no time passing during the request the second clamp does nothing: the function of
+   Model/C03_Controller.v (and so C15's model of the same function) stays valid *)
+Theorem C03_sync_second_clamp_idle_without_delay : forall c ae cur e ep nc t,
+  sched_sync2 c ae cur cur e ep nc t = sched_sync c ae cur e ep nc t.
+Proof. exact sched_sync2_same. Qed.
+Print Assumptions C03_sync_second_clamp_idle_without_delay.
+
+(* the former witness: the request sent in slot 3 is answered in slot 5; the jobs of slots 3 and 4
+   are no longer set up, the one of slot 5 is *)
 Definition wit_c : config :=
   {| c_ct := {| ct_genesis := 0; ct_dur := 12000000000; ct_spe := 2 |};
      c_att_delay := 4000000000; c_prop_delay := 0; c_ft_att := false;
@@ -88,16 +114,12 @@ Definition wit_st : state :=
              {| e_att := []; e_prop := []; e_sync := [(0, [1])]; e_vals := true |}) 3.
 Definition wit_d : option fdelay := Some {| dl_kind := RSync; dl_key := 0; dl_slots := 2 |}.
 
-Theorem C03_slow_sync_answer_passed_slot_refuted :
-  exists c st o d s,
-    texists (st_jobs (fst (step_imm false c d st o))) (JSync s) = false /\
-    texists (st_jobs (step_d false c d st o)) (JSync s) = true /\
-    s < st_cur (step_d false c d st o).
-Proof.
-  exists wit_c, wit_st, (SchedSync 1 false), wit_d, 3.
-  split; [vm_compute; reflexivity | split; vm_compute; reflexivity].
-Qed.
-Print Assumptions C03_slow_sync_answer_passed_slot_refuted.
+Example C03_slow_sync_answer_nonvacuous :
+  let st' := step_d false wit_c wit_d wit_st (SchedSync 1 false) in
+  st_cur st' = 5 /\ texists (st_jobs st') (JSync 3) = false /\ texists (st_jobs st') (JSync 4) = false /\
+  texists (st_jobs st') (JSync 5) = true /\ texists (st_jobs st') (JSync 6) = true /\
+  texists (st_jobs (fst (step_imm false wit_c wit_d wit_st (SchedSync 1 false)))) (JSync 5) = false.
+Proof. vm_compute. repeat split; reflexivity. Qed.
 
 (* non-vacuity: a restart in slot 4 whose attester duties of epoch 1 (slots 4..7) arrive one slot
    later sets up the jobs of slots 6 and 7 then, and none for slot 5 *)
